@@ -1,5 +1,5 @@
 /* string_ops.c — correspondence harness for String (C16), white-box.
- * Textually includes the working tree's src/String.c with realloc/calloc/free redirected to a
+ * Textually includes the working tree's src/String.c with realloc/calloc/malloc/free redirected to a
  * tracking allocator, so that
  *   - the exact size String.c asked for is known (printed as <alloc>, compared with the model),
  *   - every (re)allocation MOVES and fills the new bytes with 0xA5 (no accidental zeroes, stale
@@ -65,12 +65,16 @@ static void* h_calloc(size_t a, size_t b) {
   return p;
 }
 
+static void* h_malloc(size_t n) { return h_alloc(n); }
+
 #define realloc h_realloc
 #define calloc  h_calloc
+#define malloc  h_malloc
 #define free    h_free
 #include "String.c"
 #undef realloc
 #undef calloc
+#undef malloc
 #undef free
 
 #include "hcommon.h"
@@ -172,36 +176,44 @@ static void one_case(char* line) {
           for (size_t i = 0; i < n; i++) sprintf(rbig + 1 + 2 * i, "%02x", (unsigned char)rbuf[i]);
           rbig[1 + 2 * n] = 0; routp = rbig; break; }
         case 'f': {
-          /* f<pos>:<piece>,... : one print_to with the pieces joined into ONE format string */
+          /* f<pos>:<piece>,... : one print_to with the pieces joined into ONE format string.
+             The reference applies the pieces one after the other to rbuf (libc rendering). */
           char* c = strchr(tok, ':'); *c = 0;
           int pos = atoi(tok + 1);
           static char fmt[MAXS]; size_t fl = 0;
           var args = new_raw(Tuple);
-          size_t rl = 0;                       /* libc rendering into tmpb */
+          size_t cur = (size_t)pos;
           char* q = c + 1; char* pc;
           while ((pc = next_tok(&q, ',')) != NULL) {
+            size_t n = 0;
             if (pc[0] == 'L') {
-              size_t n = unhex(pc + 1, argb);
+              n = unhex(pc + 1, argb);
               for (size_t i = 0; i < n; i++) { if (argb[i] == '%') fmt[fl++] = '%'; fmt[fl++] = argb[i]; }
-              memcpy(tmpb + rl, argb, n); rl += n;
+              memcpy(tmpb, argb, n + 1);
             } else if (pc[0] == 'S') {
               unhex(pc + 1, argb);
               fmt[fl++] = '%'; fmt[fl++] = 's';
               push(args, new_raw(String, $S(argb)));
-              rl += (size_t)sprintf(tmpb + rl, "%s", argb);
+              n = (size_t)sprintf(tmpb, "%s", argb);
             } else if (pc[0] == 'D') {
               long v = strtol(pc + 1, NULL, 10);
               fmt[fl++] = '%'; fmt[fl++] = 'l'; fmt[fl++] = 'i';
               push(args, new_raw(Int, $I(v)));
-              rl += (size_t)sprintf(tmpb + rl, "%li", v);
+              n = (size_t)sprintf(tmpb, "%li", v);
+            } else if (pc[0] == 'X') {
+              fmt[fl++] = '%'; fmt[fl++] = 's';
+              push(args, s);                       /* the String under test itself */
+              n = (size_t)sprintf(tmpb, "%s", rbuf);
             }
+            if (cur <= strlen(rbuf)) memcpy(rbuf + cur, tmpb, n + 1);
+            cur += n;
           }
-          fmt[fl] = 0; tmpb[rl] = 0;
-          if ((size_t)pos <= strlen(rbuf)) { memcpy(rbuf + pos, tmpb, rl + 1); }
-          snprintf(rout, sizeof rout, "n%zu", (size_t)pos + rl);
+          fmt[fl] = 0;
+          snprintf(rout, sizeof rout, "n%zu", cur);
           int np = print_to_with(s, pos, fmt, args);
           snprintf(out, sizeof out, "n%d", np);
-          foreach (a in args) { del_raw(a); }
+          /* by index: Tuple iteration looks the current element up by identity and s may occur twice */
+          for (size_t i = 0, na = len(args); i < na; i++) { var a = get(args, $I(i)); if (a isnt s) del_raw(a); }
           del_raw(args);
           break; }
         default: strcpy(out, "BADOP");
